@@ -71,6 +71,10 @@ OnCallEnd(e) ==
   \* (a caller that also gave up at that very moment may see its own context's error instead)
   /\ Check(l, "C01.FailFastAfterTermination", c.afterTerm => ((e.kind = "closed" \/ (e.kind = "ctx" /\ c.cancelled)) /\ e.t = c.beginT))
   /\ Check(l, "C04.PromptReturn", (c.cancelled /\ c.ended = 0) => e.t = c.cancelT)
+  \* ... "with the context's error": a cancelled call ends with its response (if that won the race), with the
+  \* context's own error, or with the connection's error if the connection went down - never with anything else
+  /\ Check(l, "C04.ReturnsContextError",
+           (c.cancelled /\ e.kind = "other") => (m.closeSeq > 0 \/ m.fault \/ m.rdDown \/ m.trClosed))
   /\ m' = [m EXCEPT !.calls = Put(m.calls, e.k, [c EXCEPT !.ended = c.ended + 1])]
 
 \* only a cancellation of a call that is still in flight counts
